@@ -186,6 +186,9 @@ func (o *vfObj) ReadAt(p []byte, off int64) (int, error) {
 			return 0, err
 		}
 	}
+	if off < 0 {
+		return 0, fmt.Errorf("negative offset %d", off)
+	}
 	o.file.mu.Lock()
 	defer o.file.mu.Unlock()
 	if off >= int64(len(o.file.data)) {
@@ -209,6 +212,9 @@ func (o *vfObj) WriteAt(p []byte, off int64) (int, error) {
 		if err := o.st.FailAt(o.path, off, len(p), true); err != nil {
 			return 0, err
 		}
+	}
+	if off < 0 || off > 1<<26 {
+		return 0, fmt.Errorf("offset %d out of the store's range", off)
 	}
 	o.file.mu.Lock()
 	defer o.file.mu.Unlock()
@@ -359,12 +365,15 @@ func (h vfHBase) Filecmd(r *Request) error {
 		if f == nil {
 			return os.ErrNotExist
 		}
-		if r.AttrFlags().Size {
-			sz := int(r.Attributes().Size)
+		if at := r.Attributes(); r.AttrFlags().Size && at != nil {
+			if at.Size > 1<<20 {
+				return fmt.Errorf("size %d out of the store's range", at.Size)
+			}
+			sz := int(at.Size)
 			f.mu.Lock()
 			if sz <= len(f.data) {
 				f.data = f.data[:sz]
-			} else if sz < 1<<20 {
+			} else {
 				f.data = append(f.data, make([]byte, sz-len(f.data))...)
 			}
 			f.mu.Unlock()
